@@ -73,9 +73,107 @@ def _unbits(b):
     return struct.unpack("<d", struct.pack("<Q", b))[0]
 
 
+def _apply_view(base, v):
+    """a FRESH, not yet materialised view of `base` selecting exactly the case's rows"""
+    k = v["kind"]
+    if k == "idx":
+        return base[list(v["idx"])]
+    if k == "idxarr":
+        return base[np.array(v["idx"], dtype=int)]
+    if k == "slice":
+        return base[v["a"]:v["b"]]
+    if k == "step":
+        return base[v["a"]::v["step"]]
+    if k == "mask":
+        return base[np.array(v["mask"], dtype=bool)]
+    if k == "rev":
+        return base[::-1]
+    if k == "cols":
+        return base[:, v["a"]:]
+    if k == "colsneg":
+        return base[:, :-v["b"]]
+    raise ValueError(k)
+
+
+def _select(base_rows, v):
+    """pure-Python meaning of the selection (used to build cases; asserted equal to c["rows"])"""
+    k = v["kind"]
+    if k in ("idx", "idxarr"):
+        return [base_rows[i] for i in v["idx"]]
+    if k == "slice":
+        return base_rows[v["a"]:v["b"]]
+    if k == "step":
+        return base_rows[v["a"]::v["step"]]
+    if k == "mask":
+        return [r for r, m in zip(base_rows, v["mask"]) if m]
+    if k == "rev":
+        return base_rows[::-1]
+    if k == "cols":
+        return [r[v["a"]:] for r in base_rows]
+    if k == "colsneg":
+        return [r[:-v["b"]] for r in base_rows]
+    raise ValueError(k)
+
+
+def _with_view(rng, c):
+    """the same case with its rows handed over as a fresh view of a larger / permuted ragged array"""
+    rows = c["rows"]
+    n = len(c["alpha"])
+    decoy = lambda: [rng.randrange(n) for _ in range(rng.choice([0, 1, 2, 3, 5, 8]))]
+    kind = rng.choice(["idx", "idxarr", "slice", "mask", "rev", "cols", "colsneg", "step"])
+    if kind in ("idx", "idxarr"):
+        base = [list(r) for r in rows] + [decoy() for _ in range(rng.choice([0, 1, 2]))]
+        order = list(range(len(base)))
+        rng.shuffle(order)
+        base2 = [base[i] for i in order]
+        v = {"kind": kind, "idx": [order.index(i) for i in range(len(rows))]}
+        base = base2
+    elif kind == "slice":
+        pre = [decoy() for _ in range(rng.choice([0, 1, 2]))]
+        post = [decoy() for _ in range(rng.choice([0, 1, 2]))]
+        base = pre + [list(r) for r in rows] + post
+        v = {"kind": "slice", "a": len(pre), "b": len(pre) + len(rows)}
+    elif kind == "step":
+        base = []
+        for r in rows:
+            base += [list(r), decoy()]
+        pre = [decoy() for _ in range(rng.choice([0, 1]))]
+        base = pre + base
+        v = {"kind": "step", "a": len(pre), "step": 2}
+    elif kind == "mask":
+        base, mask = [], []
+        for r in rows:
+            for _ in range(rng.choice([0, 0, 1, 2])):
+                base.append(decoy()); mask.append(False)
+            base.append(list(r)); mask.append(True)
+        for _ in range(rng.choice([0, 1])):
+            base.append(decoy()); mask.append(False)
+        v = {"kind": "mask", "mask": mask}
+    elif kind == "rev":
+        base = [list(r) for r in rows][::-1]
+        v = {"kind": "rev"}
+    elif kind == "cols":
+        a = rng.choice([1, 2])
+        base = [[rng.randrange(n) for _ in range(a)] + list(r) for r in rows]
+        v = {"kind": "cols", "a": a}
+    else:
+        b = rng.choice([1, 2])
+        base = [list(r) + [rng.randrange(n) for _ in range(b)] for r in rows]
+        v = {"kind": "colsneg", "b": b}
+    assert _select(base, v) == [list(r) for r in rows], (base, v, rows)
+    out = dict(c)
+    out["view"] = dict(v, base=base)
+    out.pop("via", None)
+    out.pop("shape", None)
+    return out
+
+
 def _input(c, ascii_ok=False):
     from bionumpy.encoded_array import as_encoded_array
     alpha = c["alpha"]
+    if "view" in c:
+        base = as_encoded_array(_texts(alpha, c["view"]["base"]), _enc(alpha))
+        return _apply_view(base, c["view"])
     texts = _texts(alpha, c["rows"])
     via = c.get("via", "enc")
     if c.get("shape") == "flat":
@@ -91,64 +189,108 @@ def _ragged_out(r, flat, conv=int):
     return [[conv(x) for x in np.asarray(row).ravel()] for row in r]
 
 
-def impl(c):
+def _call(c):
+    """run the real function; return (live result object, canon_fn) -- canon_fn re-reads the live object"""
     from bionumpy.sequence import get_kmers, get_minimizers, match_string, get_motif_scores, count_kmers
-    from bionumpy.encodings.exceptions import EncodingError
     op = c["op"]
     flat = c.get("shape") == "flat"
-    try:
-        if op == "kmers":
-            km = get_kmers(_input(c), c["k"])
-            raw = km.raw()
-            rows = _ragged_out(raw, flat)
+    if op == "kmers":
+        km = get_kmers(_input(c), c["k"])
+
+        def canon_kmers(o):
+            rows = _ragged_out(o.raw(), flat)
             if c.get("text", True) is False:
                 return {"rows": rows}
-            text = [[km.encoding.to_string(np.int64(h)) for h in row] for row in rows]
-            return {"rows": rows, "text": text}
-        if op == "minimizers":
-            r = get_minimizers(_input(c), c["k"], c["w"])
-            return {"rows": _ragged_out(r.raw(), flat)}
-        if op == "match":
-            from bionumpy.encoded_array import as_encoded_array
-            alpha = c["alpha"]
-            pat = "".join(alpha[x] for x in c["pat"])
-            seq = _input(c, ascii_ok=True)
-            r = match_string(seq, pat if c.get("via") == "ascii" else as_encoded_array(pat, _enc(alpha)))
-            return {"rows": _ragged_out(r, flat, bool)}
-        if op == "match_same":
-            # RollableFunction.rolling_window(mode="same") through the public StringMatcher class
-            from bionumpy.encoded_array import as_encoded_array
-            from bionumpy.sequence.string_matcher import StringMatcher
-            alpha = c["alpha"]
-            enc = _enc(alpha)
-            pat = as_encoded_array("".join(alpha[x] for x in c["pat"]), enc)
-            r = StringMatcher(pat, enc).rolling_window(_input(c), mode="same")
-            return {"rows": _ragged_out(r, flat, bool)}
-        if op == "pwm":
-            from bionumpy.sequence.position_weight_matrix import PWM
-            alpha = c["alpha"]
-            m = np.array([[_unbits(b) for b in row] for row in c["matrix"]], dtype=float).T   # (letters, w)
-            r = get_motif_scores(_input(c, ascii_ok=True), PWM(m, alpha))
-            return {"rows": _ragged_out(r, flat, _bits)}
-        if op == "count":
-            r = count_kmers(_input(c), c["k"], axis=c["axis"])
-            cnt = np.asarray(r.counts)
-            lab = list(r.alphabet)
+            return {"rows": rows, "text": [[o.encoding.to_string(np.int64(h)) for h in row] for row in rows]}
+        return km, canon_kmers
+    if op == "minimizers":
+        r = get_minimizers(_input(c), c["k"], c["w"])
+        return r, (lambda o: {"rows": _ragged_out(o.raw(), flat)})
+    if op == "match":
+        from bionumpy.encoded_array import as_encoded_array
+        alpha = c["alpha"]
+        pat = "".join(alpha[x] for x in c["pat"])
+        seq = _input(c, ascii_ok=True)
+        r = match_string(seq, pat if c.get("via") == "ascii" else as_encoded_array(pat, _enc(alpha)))
+        return r, (lambda o: {"rows": _ragged_out(o, flat, bool)})
+    if op == "match_same":
+        # RollableFunction.rolling_window(mode="same") through the public StringMatcher class
+        from bionumpy.encoded_array import as_encoded_array
+        from bionumpy.sequence.string_matcher import StringMatcher
+        alpha = c["alpha"]
+        enc = _enc(alpha)
+        pat = as_encoded_array("".join(alpha[x] for x in c["pat"]), enc)
+        r = StringMatcher(pat, enc).rolling_window(_input(c), mode="same")
+        return r, (lambda o: {"rows": _ragged_out(o, flat, bool)})
+    if op == "pwm":
+        from bionumpy.sequence.position_weight_matrix import PWM
+        alpha = c["alpha"]
+        m = np.array([[_unbits(b) for b in row] for row in c["matrix"]], dtype=float).T   # (letters, w)
+        r = get_motif_scores(_input(c, ascii_ok=True), PWM(m, alpha))
+        return r, (lambda o: {"rows": _ragged_out(o, flat, _bits)})
+    if op == "count":
+        r = count_kmers(_input(c), c["k"], axis=c["axis"])
+        nrows = len(c["rows"])
+
+        def canon_count(o):
+            cnt = np.asarray(o.counts)
+            lab = list(o.alphabet)
             if c["axis"] is None:
                 return {"counts": [int(x) for x in cnt], "labels": lab}
-            return {"counts": [[int(x) for x in row] for row in cnt.reshape(len(c["rows"]), -1)], "labels": lab}
-        if op == "kenc":
-            from bionumpy.encodings.kmer_encodings import KmerEncoding
-            alpha = c["alpha"]
-            ke = KmerEncoding(_enc(alpha), c["k"])
-            texts = _texts(alpha, c["kmers"])
-            h = ke.encode(texts if len(texts) != 1 or c.get("as_list") else texts[0])
-            hs = [int(x) for x in np.asarray(h.raw()).ravel()]
+            return {"counts": [[int(x) for x in row] for row in cnt.reshape(nrows, -1)], "labels": lab}
+        return r, canon_count
+    if op == "kenc":
+        from bionumpy.encodings.kmer_encodings import KmerEncoding
+        alpha = c["alpha"]
+        ke = KmerEncoding(_enc(alpha), c["k"])
+        texts = _texts(alpha, c["kmers"])
+        h = ke.encode(texts if len(texts) != 1 or c.get("as_list") else texts[0])
+
+        def canon_kenc(o):
+            hs = [int(x) for x in np.asarray(o.raw()).ravel()]
             return {"codes": hs, "text": ke.to_string(np.asarray(hs, dtype=np.int64)).split(",") if hs else []}
-    except EncodingError:
-        return {"err": "encoding"}
+        return h, canon_kenc
+    raise ValueError(op)
+
+
+def _err(e):
+    from bionumpy.encodings.exceptions import EncodingError
+    return {"err": "encoding"} if isinstance(e, EncodingError) else {"err": "other:" + type(e).__name__}
+
+
+def impl(c):
+    if c["op"] == "seq":
+        # several calls in one process; every result is read only AFTER the last call (shared buffers / caches show up)
+        live = []
+        for sub in c["calls"]:
+            try:
+                live.append(_call(sub))
+            except Exception as e:
+                live.append(_err(e))
+        out = []
+        for x in live:
+            if isinstance(x, dict):
+                out.append(x)
+            else:
+                try:
+                    out.append(x[1](x[0]))
+                except Exception as e:
+                    out.append(_err(e))
+        return {"results": out}
+    try:
+        obj, canon_fn = _call(c)
+        return canon_fn(obj)
     except Exception as e:
-        return {"err": "other:" + type(e).__name__}
+        return _err(e)
+
+
+def impl_live(c):
+    return _call(c)
+
+
+def live_cases(tier, rng):
+    pool = [c for c in _seq_pool(rng, 1200 if tier in ("thorough", "widen") else 500)]
+    return pool
 
 
 # --------------------------------------------------------------------------- oracle: per row, from the definition
@@ -163,6 +305,9 @@ def _code(n, win):
 
 def oracle(c):
     op = c["op"]
+    if op == "seq":
+        res = [oracle(sub) for sub in c["calls"]]
+        return SKIP if any(isinstance(r, core.Skip) for r in res) else {"results": res}
     alpha = c["alpha"]
     n = len(alpha)
     if op == "kenc":
@@ -238,6 +383,10 @@ def _agree_float_rows(got, exp):
 
 
 def agree(c, got, exp):
+    if c["op"] == "seq":
+        g = got.get("results") if isinstance(got, dict) else None
+        return isinstance(g, list) and len(g) == len(exp["results"]) and \
+            all(agree(sub, a, b) for sub, a, b in zip(c["calls"], g, exp["results"]))
     if c["op"] == "pwm":
         return _agree_float_rows(got, exp)
     return core.canon(got) == core.canon(exp)
@@ -251,11 +400,14 @@ def agree_model(c, got, m):
 
 def model_request(c):
     op = c["op"]
+    if op == "seq":
+        return None      # the Lean model is pure: a sequence of calls is the list of single calls (compared there)
     n = len(c["alpha"])
     k = c.get("k", 1)
     if op in ("kmers", "minimizers", "count", "kenc") and n ** k > 2 ** 63:
         return None      # outside the model's stated int64 range: implementation vs exact oracle only
     r = dict(c)
+    r.pop("view", None)      # the model sees the selected rows
     r["alphabet"] = [ord(ch) for ch in c["alpha"]]
     r["n"] = n
     r.pop("alpha")
@@ -324,9 +476,86 @@ def _ops_for(rng, alpha, rows, w, big, shape="ragged"):
         yield dict(base, op="pwm", matrix=_matrix(rng, n, w), **({"via": "ascii"} if rng.random() < 0.5 else {}))
 
 
+def _seq_pool(rng, n_cases):
+    """small single calls used for call sequences and for core's history probe"""
+    names = list(ALPHABETS.values())
+    out = []
+    while len(out) < n_cases:
+        alpha = rng.choice(names + ["ACGT", "ACTG", "ACGTN", "ABCDE"])
+        n = len(alpha)
+        w = rng.choice([1, 2, 2, 3, 4])
+        lens = [rng.choice([0, 1, 2, 3, 4, 6, 9]) for _ in range(rng.choice([1, 2, 3, 4]))]
+        if sum(lens) < w:
+            continue
+        rows = _rand_rows(rng, n, lens)
+        ops = [c for c in _ops_for(rng, alpha, rows, w, False)]
+        out.append(rng.choice(ops))
+    return out
+
+
+def _sequences(rng, n_seq):
+    """explicit call sequences: same function, same alphabet size / encoding, the LATER inputs no larger than the
+    earlier ones (a shared output buffer is overwritten in place), and mixed sequences"""
+    pool = _seq_pool(rng, 4 * n_seq)
+    by = {}
+    for c in pool:
+        by.setdefault((c["op"], len(c["alpha"]), _w(c)), []).append(c)
+    size = lambda c: sum(len(r) for r in c.get("rows", c.get("kmers", [])))
+    groups = [g for g in by.values() if len(g) >= 2]
+    for _ in range(n_seq):
+        r = rng.random()
+        if r < 0.6 and groups:
+            g = rng.choice(groups)
+            calls = sorted(rng.sample(g, min(len(g), rng.choice([2, 2, 3]))), key=size, reverse=True)
+        elif r < 0.8 and groups:
+            g = rng.choice(groups)
+            a = rng.choice(g)
+            calls = [a, rng.choice(g), dict(a)]          # A, B, A again
+        else:
+            calls = rng.sample(pool, 3)
+        yield {"op": "seq", "calls": calls}
+    # label tables of two different alphabets of the same size and the same k, one after the other
+    for k in (1, 2, 3):
+        for a1, a2 in (("ACGT", "ACTG"), ("ACTG", "ACGT"), ("ACGTN", "ABCDE"), ("AB", "XY")):
+            rows = _rand_rows(rng, len(a1), [5, 0, 3])
+            yield {"op": "seq", "calls": [{"op": "count", "alpha": a1, "rows": rows, "k": k, "axis": None},
+                                          {"op": "count", "alpha": a2, "rows": rows, "k": k, "axis": -1},
+                                          {"op": "kmers", "alpha": a1, "rows": rows, "k": k},
+                                          {"op": "kmers", "alpha": a2, "rows": rows, "k": k}]}
+
+
 def cases(tier, rng):
     big = tier in ("thorough", "widen")
     names = list(ALPHABETS.values())
+    # 0. call sequences (history) and fresh views as inputs
+    yield from _sequences(rng, 1500 if big else 250)
+    for c in _seq_pool(rng, 6000 if big else 1200):
+        yield _with_view(rng, c)
+    # 0b. many rows (>= 17) in one call, plain and as views
+    for _ in range(300 if big else 40):
+        alpha = rng.choice(names)
+        w = rng.choice([1, 2, 3, 5])
+        lens = [rng.choice([0, 1, w - 1, w, w + 1, 7]) for _ in range(rng.choice([17, 18, 25, 40]))]
+        if sum(lens) < w:
+            continue
+        for c in _ops_for(rng, alpha, _rand_rows(rng, len(alpha), lens), w, False):
+            if rng.random() < 0.4:
+                yield c if rng.random() < 0.5 else _with_view(rng, c)
+    # 0c. codes >= 2^53 (a float detour would round them): 4 letters k >= 27, 5 letters k >= 23, amino acids k >= 13
+    for alpha, ks in (("ACGT", (27, 28, 29, 30, 31)), ("ACTG", (27, 31)), ("ACGTN", (23, 24, 25, 26, 27)), ("ABCDE", (23, 27)),
+                      (ALPHABETS["AMINO"], (13, 14))):
+        n = len(alpha)
+        for k in ks:
+            for rep in range(3 if big else 1):
+                lens = [k + 2, k, rng.choice([0, k - 1]), k + 5]
+                rows = _rand_rows(rng, n, lens)
+                rows[0] = [n - 1] * (k + 1) + [rng.randrange(n)]          # top letters set: codes close to n^k
+                rows[1] = [rng.randrange(n) for _ in range(k - 1)] + [n - 1]
+                yield {"op": "kmers", "alpha": alpha, "rows": rows, "k": k}
+                yield {"op": "minimizers", "alpha": alpha, "rows": rows, "k": k, "w": k}
+                yield {"op": "minimizers", "alpha": alpha, "rows": rows, "k": k, "w": k + rng.choice([1, 2])}
+                yield {"op": "kenc", "alpha": alpha, "k": k, "kmers": [r[:k] for r in rows if len(r) >= k], "as_list": True}
+                yield _with_view(rng, {"op": "kmers", "alpha": alpha, "rows": rows, "k": k})
     # 1. exhaustive row-length vectors, N <= 3, M <= 4, w <= 4 (letters random), total >= w
     M = 4
     for nrows in (1, 2, 3):
@@ -441,7 +670,7 @@ def _w(c):
 
 
 def nontrivial(c):
-    if c["op"] == "kenc":
+    if c["op"] in ("kenc", "seq"):
         return True
     w = _w(c)
     return w == 1 or len(c["rows"]) >= 2 or any(len(r) in (0, w - 1, w, w + 1) for r in c["rows"])
@@ -468,6 +697,20 @@ def _int64_expectation(c):
 def finding_key(c, got, exp):
     """names the failing input class"""
     op = c["op"]
+    if op == "seq":
+        g = got.get("results") if isinstance(got, dict) else None
+        if isinstance(g, list) and len(g) == len(c["calls"]):
+            for sub, a, b in zip(c["calls"], g, exp["results"]):
+                if not agree(sub, a, b):
+                    single = impl(sub)
+                    if agree(sub, single, b):
+                        return f"history:{sub['op']}:result-wrong-only-after-other-calls"
+                    return finding_key(sub, a, b)
+        return "history:sequence"
+    if "view" in c:
+        plain = {k: v for k, v in c.items() if k != "view"}
+        if agree(plain, impl(plain), exp):
+            return f"view:{op}:wrong-on-fresh-{c['view']['kind']}-view"
     n = len(c["alpha"])
     w = _w(c)
     err = isinstance(got, dict) and "err" in got
